@@ -64,7 +64,7 @@ def gen_inputs(key, r):
     if base == 'participation_coef':
         Wm = _und(r, n, p=.6) if r.random_sample() < .5 else np.abs(_dir(r, n, p=.5))
         return dict(W=Wm, ci=r.randint(0, 3, n) * 4 + 2, degree='undirected')
-    if base == 'distance_wei':
+    if base in ('distance_wei', 'distance_wei:edges'):
         A = _dir(r, n, p=float(r.choice([.2, .4, .7]))) if r.random_sample() < .6 else _und(r, n, p=float(r.choice([.3, .6])))
         return dict(G=np.abs(A))
     if base == 'distance_wei_floyd:inv':
